@@ -263,7 +263,9 @@ class FusionEngineDecoder:
             if cls is not None:
                 contents = cls()
                 try:
-                    contents.unpack(buffer=self._buffer, offset=MessageHeader.calcsize())
+                    # Hand unpack() this message's bytes only: payload classes whose length is inferred from the
+                    # buffer would otherwise swallow whatever follows the message in the shared buffer.
+                    contents.unpack(buffer=bytes(self._buffer[:self._msg_len]), offset=MessageHeader.calcsize())
                     _logger.debug('Decoded FusionEngine message %s.', repr(contents))
                 except Exception as e:
                     # unpack() may fail if the payload length in the header differs from the length expected by the
